@@ -258,6 +258,7 @@ func ruleShapeFaults(cfg shapeConfig) ruleFunc {
 			go func() {
 				defer wg.Done()
 				it := NewInterp(p, lim)
+				it.KeepFinished = cfg.post != nil
 				mu.Lock()
 				for path, note := range it.InitNotes {
 					if note != "evaluated" {
@@ -301,7 +302,7 @@ func ruleShapeFaults(cfg shapeConfig) ruleFunc {
 						it.pushFrame(s, fn, args, nil, nil)
 						it.Run(s)
 						if os.Getenv("ORBCHECK_LABEL") != "" {
-							fmt.Printf("DEBUG %s(%s): paths=%d finished=%d truncated=%d %v merged=%d faults=%d steps=%d\n", ShortKey(FuncKey(fn)), cb.label, it.Paths, len(it.Finished), it.Truncated, it.TruncWhy, it.Merged, len(it.Faults), it.Steps)
+							fmt.Printf("DEBUG %s(%s): paths=%d finished=%d truncated=%d %v merged=%d faults=%d steps=%d\n", ShortKey(FuncKey(fn)), cb.label, it.Paths, it.NFinished, it.Truncated, it.TruncWhy, it.Merged, len(it.Faults), it.Steps)
 						}
 						mu.Lock()
 						defer mu.Unlock()
